@@ -7,6 +7,7 @@ import builtins
 import os
 import hashlib
 import warnings
+import re
 
 from . import REPO
 
@@ -32,6 +33,12 @@ class FuncInfo:
     @property
     def file(self):
         return self.mod.rel
+
+    @property
+    def dqual(self):
+        """display/qualification name used in report keys: redefinition counters (#k) removed,
+        so adding or removing an unrelated same-named function does not change a key."""
+        return re.sub(r"#\d+", "", self.qual)
 
     @property
     def key(self):
@@ -277,13 +284,13 @@ class Repo:
         for s in stmts:
             if isinstance(s, (ast.FunctionDef, ast.AsyncFunctionDef)):
                 qual = prefix + s.name
-                fi = FuncInfo(m, qual, s, cls=cls, parent=parent)
-                # keep the last definition under the plain key, earlier ones suffixed
                 if qual in m.functions:
+                    # redefinition: the k-th definition of the same qualified name is `qual#k`
                     k = 2
                     while "%s#%d" % (qual, k) in m.functions:
                         k += 1
-                    m.functions["%s#%d" % (qual, k)] = m.functions[qual]
+                    qual = "%s#%d" % (qual, k)
+                fi = FuncInfo(m, qual, s, cls=cls, parent=parent)
                 m.functions[qual] = fi
                 if cls is not None and parent is None:
                     cls.methods[s.name] = fi
